@@ -34,6 +34,35 @@ CLAIMED = {
         "verified against a memory model; MAX_SIZE is read from the source each run (Gen/Constants.v). No axioms.",
    technique="Coq invariant over all operation sequences + refinement of encoders to a functional spec; differential run vs Rust; API sweep",
    ref="5 C17"),
+ "C15": dict(
+   text="Coq theorems C15_*: push_int/push_oid/push_null/push_pdu/push_cmsg/push_v3 emit exactly the reference X.690 encodings of Spec/X690.v "
+        "(minimal two's complement, minimal definite lengths; C15_int_minimal: no shorter octet string has the same value) and the library's "
+        "decoders return the original value with nothing left over (C15_*_roundtrip for INTEGER over all i64, OID, NULL, OCTET STRING, "
+        "Get/GetNext/GetBulk PDUs, v1/v2c messages, v3 messages plain and encrypted, USM parameters, scoped PDU).  Extracted model vs real "
+        "push_ber/from_ber on every INTEGER of 1..2 (thorough: 3) content octets, boundary neighbourhoods, random i64, and thousands of messages; "
+        "oracle: independent minimal encoder and the implementation's own decode of its own output.",
+   note="Trusted: Coq kernel; hand model tied by differential execution (debug+release); Spec/X690.v as the definition of 'minimal'. No axioms.",
+   technique="Coq refinement proof (encoder = functional spec) + round-trip proof; differential run of extracted model vs Rust",
+   ref="5 C15"),
+ "C16": dict(
+   text="Coq theorems C16_*: the header and every element decoder are independent of the octets following the element and leave exactly those "
+        "octets (C16_header_extent, C16_element_extent, C16_value_extent, *_local), a declared length never exceeds the available octets "
+        "(C16_header_fits: overrun is rejected with Incomplete), octets after the top-level v1/v2c/v3 message, after USM parameters and after the "
+        "varbind list are rejected with TrailingData.  Metamorphic correspondence on ~15k (x, x++s) pairs over all types and message layers and on "
+        "messages with a tampered inner length.",
+   note="Trusted: Coq kernel; hand model of the decoders tied by differential execution (debug+release). Octets after the PDU but inside the "
+        "message envelope are ignored by the code (as modelled); the property only requires rejection after the top-level message. No axioms.",
+   technique="Coq proof of extent lemmas by induction on the octet list; metamorphic differential run vs Rust",
+   ref="5 C16"),
+ "C02": dict(
+   text="Coq theorems C02_value (every legal BER encoding of every SNMP value kind, any definite length form, decodes to the value it denotes and "
+        "leaves the rest), C02_integer / C02_unsigned32 / C02_unsigned64 (two's complement resp. unsigned value for minimal and padded contents), "
+        "C02_response_every_position (any number of varbinds, every position).  REAL is partial: exact description proved (C02_real_*_partial), "
+        "IEEE rounding delegated to the correspondence run.  Three-way comparison intended value / model / implementation through the codec "
+        "harness and through get, get_many, getnext, getbulk (sync+async; v1, v2c, v3 noAuth/SHA/MD5+DES/SHA+AES).",
+   note="Trusted: Coq kernel; hand model; PyO3 conversions exercised only by the API-level run; f64 rounding (powi, parse::<f64>) not modelled (partial). No axioms.",
+   technique="Coq proof over an inductive relation of legal encodings; differential run vs Rust and vs the real SnmpSession",
+   ref="5 C02"),
 }
 
 PENDING = "check not built yet in this round (see DESIGN.md section 7 for the order of work)"
